@@ -10,6 +10,8 @@
     the exhausted-counter exit that zeroes the rest and returns -1) = the hand model `KState.expand`, whose sequences TJ.Props.C13.incremental
     proves to be the successive slices of the one-shot stream.
   * `extract_source_is_model` — `tinyjambu_hkdf_extract` = `KState.extract`.
+  * `expands_source_are_model` — ANY sequence of `tinyjambu_hkdf_expand` calls on one state object (by induction on the sequence) returns, call by call, the return
+    values and bytes of the model's `runExpands`, i.e. after `extract` the consecutive slices of `T(1) ‖ … ‖ T(255)` then zeros with -1 (TJ.Props.C13.incremental).
 
   Inside the computation the block counter and the position byte share a memory block with the key (`prk`), the previous block (`out`) and the
   counter byte that is itself hashed; the proofs show that these two bytes stay public (TJ.Proofs.Update1, TJ.Proofs.HmacK), so the branches on
@@ -116,5 +118,56 @@ theorem extract_source_is_model (st : St) (bs bk bt : Nat) (X XK XT : Array LByt
   unfold callFun
   simp only [List.length_cons, List.length_nil, List.range, List.range.loop, List.map, Bool.false_eq_true, if_false, Nat.zero_add]
   exact hx
+
+/-- the memory is ready for a `tinyjambu_hkdf_expand(state, info, infolen, out, n)` call with `n ≤ cap`: a state object representing `k`, an output buffer of
+    at least `cap` bytes in another block, the info bytes (or an empty info with any pointer) in a third -/
+def XReady (bK bo bi baseK baseo basei oo ioff cap pinfo : Nat) (info : Bytes) (k : KState) (st : St) : Prop :=
+  (∃ X od, st.mem[bK]? = some ⟨X, baseK⟩ ∧ KObjV X k od ∧ k.posn.toNat ≤ 32 ∧ ((k.counter ≠ 1 ∨ k.posn.toNat < 32) → od) ∧ baseK + X.size < ptrBase) ∧
+  (∃ XO, st.mem[bo]? = some ⟨XO, baseo⟩ ∧ baseo + XO.size < ptrBase ∧ oo + cap ≤ XO.size) ∧
+  (info = [] ∨ ∃ XI, st.mem[bi]? = some ⟨XI, basei⟩ ∧ BytesV XI ioff info ∧ pinfo = mkPtr bi (basei + ioff) ∧ bi ≠ bK ∧ bi ≠ bo ∧ basei + XI.size < ptrBase) ∧
+  bK ≠ bo ∧ st.mem.size + 6 < 2 ^ 30
+
+/-- a sequence of `tinyjambu_hkdf_expand` calls on one state object, every call writing its `n` bytes to the start of the same output window; the list pairs each call's
+    return value (as the model's `Int`) with the bytes it wrote -/
+inductive ExpandRun (bK bo baseK baseo oo pinfo : Nat) (info : Bytes) : St → List Nat → List (Int × Bytes) → St → Prop
+  | nil (st : St) : ExpandRun bK bo baseK baseo oo pinfo info st [] [] st
+  | cons (st st1 st2 : St) (n : Nat) (ns : List Nat) (rv fuel : Nat) (out : Bytes) (rs : List (Int × Bytes)) (XO : Array LByte) :
+      callFun prog fuel idx_tinyjambu_hkdf_expand true [(mkPtr bK baseK, .pub), (pinfo, .pub), (info.length, .pub), (mkPtr bo (baseo + oo), .pub), (n, .pub)] st =
+        .ok .normal #[(rv, .pub), (mkPtr bK baseK, .pub), (pinfo, .pub), (info.length, .pub), (mkPtr bo (baseo + oo), .pub), (n, .pub)] st1 →
+      st1.mem[bo]? = some ⟨XO, baseo⟩ → BytesV XO oo out → out.length = n →
+      ExpandRun bK bo baseK baseo oo pinfo info st1 ns rs st2 →
+      ExpandRun bK bo baseK baseo oo pinfo info st (n :: ns) ((retInt rv, out) :: rs) st2
+
+/-- **any sequence of incremental `tinyjambu_hkdf_expand` calls on the regenerated source returns what the model's `runExpands` returns** (return values and bytes, call by
+    call) and leaves a state object ready for further calls; with `TJ.Props.C13.incremental` the results after `extract` are the consecutive slices of RFC 5869's
+    `T(1) ‖ … ‖ T(255)`, zero-filled with -1 past byte 8160. -/
+theorem expands_source_are_model (bK bo bi baseK baseo basei oo ioff cap pinfo : Nat) (info : Bytes) (ns : List Nat) :
+    ∀ (st : St) (k : KState), XReady bK bo bi baseK baseo basei oo ioff cap pinfo info k st → (∀ n ∈ ns, n ≤ cap) →
+      ∃ st', ExpandRun bK bo baseK baseo oo pinfo info st ns (TJ.Props.C13.runExpands k info ns).1 st' ∧
+        XReady bK bo bi baseK baseo basei oo ioff cap pinfo info (TJ.Props.C13.runExpands k info ns).2 st' ∧ st'.ent = st.ent := by
+  induction ns with
+  | nil => intro st k hr _; exact ⟨st, ExpandRun.nil st, hr, rfl⟩
+  | cons n ns ih =>
+    intro st k ⟨⟨X, od, hK, ho, hp32, hod, hltK⟩, ⟨XO, hO, hltO, hcap⟩, hI, hKo, hsz⟩ hns
+    have hn : n ≤ cap := hns n (List.mem_cons_self ..)
+    have hIx : ∃ XI, info = [] ∨ (st.mem[bi]? = some ⟨XI, basei⟩ ∧ BytesV XI ioff info ∧ pinfo = mkPtr bi (basei + ioff) ∧ bi ≠ bK ∧ bi ≠ bo ∧ basei + XI.size < ptrBase) := by
+      rcases hI with h | ⟨XI, h⟩
+      · exact ⟨#[], Or.inl h⟩
+      · exact ⟨XI, Or.inr h⟩
+    obtain ⟨XI, hIx⟩ := hIx
+    obtain ⟨fuel, st1, rv, hrun, hret, xp⟩ := expand_source_is_model st bK bo X XO baseK baseo oo n k od info pinfo bi basei ioff XI hK ho hp32 hod hO hKo hltK hltO (by omega) hIx hsz
+    obtain ⟨X1, od1, g1, g2, g3, g4, g5⟩ := xp.obj
+    obtain ⟨XO1, h1, h2, h3, h4, _⟩ := xp.buf
+    have hr1 : XReady bK bo bi baseK baseo basei oo ioff cap pinfo info (k.expand info n).2.2 st1 := by
+      refine ⟨⟨X1, od1, g1, g3, g5, g4, by rw [g2]; exact hltK⟩, ⟨XO1, h1, by rw [h2]; exact hltO, by rw [h2]; exact hcap⟩, ?_, hKo, by rw [xp.msz]; exact hsz⟩
+      rcases hI with h | ⟨XI0, hb, hd, hp, hiK, hio, hlt⟩
+      · exact Or.inl h
+      · obtain ⟨XI1, e1, e2, e3⟩ := eqv_block (by have := xp.oth bi hiK hio; rw [hb] at this; exact this)
+        exact Or.inr ⟨XI1, e1, bytesV_of_veq e3 hd, hp, hiK, hio, by rw [e2]; exact hlt⟩
+    obtain ⟨st2, hrun2, hr2, hent2⟩ := ih st1 _ hr1 (fun m hm => hns m (List.mem_cons_of_mem _ hm))
+    refine ⟨st2, ?_, hr2, hent2.trans xp.ent⟩
+    show ExpandRun bK bo baseK baseo oo pinfo info st (n :: ns) (((k.expand info n).1, (k.expand info n).2.1) :: (TJ.Props.C13.runExpands (k.expand info n).2.2 info ns).1) st2
+    rw [← hret]
+    exact ExpandRun.cons st st1 st2 n ns rv fuel _ _ XO1 hrun h1 h3 h4 hrun2
 
 end TJ.Props.C13Gen
